@@ -86,6 +86,9 @@ func c11ActorOf(ctl **gate.Controller) func(point string, kv []interface{}) (str
 				return req.Header.Get("X-Verif-Conn"), ""
 			}
 		}
+		if strings.HasPrefix(point, "sse.write.") {
+			return (*ctl).GoroutineName(), ""
+		}
 		if strings.HasPrefix(point, "push.") {
 			info := ""
 			if len(kv) > 1 {
@@ -122,6 +125,7 @@ func c11RunSchedule(s c11Schedule) (res c11Result) {
 		ctl.Gate("get.flushed", true)
 		ctl.Gate("get.woken", true)
 		ctl.Gate("push.lookup", true)
+		ctl.Gate("sse.write.id", true)
 	}
 	mcp.VerifSetHook(ctl.Hook)
 	defer mcp.VerifSetHook(nil)
@@ -214,6 +218,7 @@ func c11RunSchedule(s c11Schedule) (res c11Result) {
 		return o
 	}
 
+	begun := map[string]bool{}
 	for i, st := range s.Steps {
 		fail := func(why string) {
 			res.Unrealised = fmt.Sprintf("step %d %s(%s): %s; parked=%v", i, st.Op, st.Arg, why, ctl.ParkedList())
@@ -257,7 +262,7 @@ func c11RunSchedule(s c11Schedule) (res c11Result) {
 				fail("handler did not wake after the client closed the stream")
 				return
 			}
-		case "cleanup":
+		case "cleanupbegin":
 			// internal step: best effort (the model's handler may be woken where the code's is not)
 			if s.Gated {
 				if !ctl.WaitParked(st.Arg, "get.woken", 40*time.Millisecond) {
@@ -265,6 +270,12 @@ func c11RunSchedule(s c11Schedule) (res c11Result) {
 					continue
 				}
 				ctl.Release(st.Arg, "get.woken")
+				begun[st.Arg] = true
+			}
+		case "cleanup":
+			if s.Gated && !begun[st.Arg] {
+				res.Skipped++
+				continue
 			}
 			if !ctl.WaitEvent(st.Arg, "get.cleaned", 0, c11Wait) {
 				fail("no get.cleaned event")
@@ -293,9 +304,37 @@ func c11RunSchedule(s c11Schedule) (res c11Result) {
 					}
 				}
 			}
+		case "sacq":
+			// take the write lock: runs up to the first write point inside the lock, or returns (refused)
+			if s.Gated {
+				ctl.Release(st.Arg, "push.lookup")
+				sd := r.sends[st.Arg]
+				deadline := time.Now().Add(c11Wait)
+				for !ctl.IsParked(st.Arg, "sse.write.id") {
+					select {
+					case <-sd.done:
+						deadline = time.Now()
+					default:
+					}
+					if !time.Now().Before(deadline) {
+						break
+					}
+					time.Sleep(200 * time.Microsecond)
+				}
+			}
+		case "probe":
+			// an ungated send at a quiescent point
+			ctl.Pass(st.Arg, "push.lookup")
+			ctl.Pass(st.Arg, "sse.write.id")
+			startSend(st.Arg, "notif")
+			o := finishSend(st.Arg)
+			o.Op = "probe"
+			res.Obs = append(res.Obs, o)
+			r.ev(map[string]interface{}{"e": "probe", "ok": o.OK, "on": o.On})
 		case "send":
 			if s.Gated {
 				ctl.Release(st.Arg, "push.lookup")
+				ctl.Release(st.Arg, "sse.write.id")
 			}
 			o := finishSend(st.Arg)
 			res.Obs = append(res.Obs, o)
